@@ -364,6 +364,9 @@ def analyse(desc, model, heating=None, cooling=None, net_kw=None):
     a.desc = desc
     net = build_network(desc, **(net_kw or {}))
     a.net = net
+    if heating is None and desc.get("heating"):
+        # user-registered heating processes (the package ships none): reactant lists, with repeats; channel A only
+        heating = [ThermalProcess(list(names), "1.0e-27 * sqrt(Temp)") for names in desc["heating"]]
     info, ode = impl_ode(net, heating=heating, cooling=cooling)
     a.info, a.ode = info, ode
     species = info.species
